@@ -48,7 +48,13 @@ def worker_init():
     def gni(*a, **k):
         _state['env_calls'] = 0
         _state['last_none'] = False
+        _state['layer'] = _state.get('layer', 0) + 1
+        if _state.get('abort_at') == ('pre', _state['layer']):
+            from emd.support import EMDSiftCovergeError
+            raise EMDSiftCovergeError('injected: extraction %d did not converge' % _state['layer'])
         r = _orig['gni'](*a, **k)
+        if _state.get('abort_at') == ('post', _state['layer']):
+            raise KeyboardInterrupt('injected after extraction %d' % _state['layer'])
         if _state['last_none']:
             _state['paths'].append('final' if _state['env_calls'] <= 2 else 'vanish')
         else:
@@ -124,6 +130,16 @@ def cases(tier, seed):
         stride = b['stride_noise'] if name[0] in ('noise', 'walk') else b['stride_fb']
         for ci in _cfgs(False, stride, k):
             yield ('fb', name, seed, ci)
+    # every abort point: a sift left through an exception at (or right after) its k-th extraction, for every k, must
+    # leave nothing behind - the next sift of the same record is judged and compared with the undisturbed run
+    for i, name in enumerate(signals.fb_names((32,))):
+        yield ('fb-abort', name, seed, (i * 37) % 288)
+    # amplitudes many orders of magnitude from 1, the sift threshold rescaled with the signal (or switched off)
+    for i, name in enumerate(signals.fb_names((32,))):
+        if i % 3 == 0:
+            for scale in (1e-13, 1e9):
+                for ci in ((i * 29) % 288, (i * 53 + 7) % 288):
+                    yield ('fb-scaled', name + (scale,), seed, ci)
 
 
 def decode_case(c):
@@ -142,10 +158,12 @@ def signal_of(case):
         return c05.signal_of((case[1][0], tuple(case[1][1]), case[2]))
     if case[0] == 'fa3':
         return signals.fa_signal(case[1], 3, case[2])
+    if case[0] == 'fb-scaled':
+        return signals.fb_signal(tuple(case[1][:-1]), case[2]) * case[1][-1]
     return signals.fb_signal(case[1], case[2])
 
 
-def judge(x, imf, sift_thresh=1e-8):
+def judge(x, imf, sift_thresh=1e-8, unit=1.0):
     """-> (kind, message) or None.  The statement's oracle for one decomposition."""
     imf = np.asarray(imf)
     N = len(x)
@@ -156,7 +174,7 @@ def judge(x, imf, sift_thresh=1e-8):
     if np.abs(imf[:, -1]).sum() < sift_thresh:
         return None     # explicitly cut short by the sift threshold
     R = x - imf.sum(axis=1)
-    tol = 1e-9 * (1 + np.max(np.abs(x))) * imf.shape[1]
+    tol = 1e-9 * (unit + np.max(np.abs(x))) * imf.shape[1]
     if not np.max(np.abs(R)) <= tol:
         return ('incomplete', 'components sum to the input minus %s (max |R| = %.3g, %d columns)' % (
             np.round(R[:6], 6).tolist(), np.max(np.abs(R)), imf.shape[1]))
@@ -181,10 +199,18 @@ def check_case(case):
     classes = set()
     maxcols = 0
     d = 'x=%s%s' % (x.tolist() if N <= 12 else '%s%r' % (case[0], case[1]), ' (integer-typed)' if case[0] == 'fa4-int' else '')
+    unit, thresh = 1.0, 1e-8
+    if case[0] == 'fb-scaled':
+        unit = case[1][-1]
+        thresh = 1e-8 * unit if case[3] % 2 == 0 else 0.0
     for (rule, par), step, interp, pad in configs:
         o = opts_of(rule, par, step, interp, pad)
-        tag = '%s stop=%s%r step=%.3g interp=%s pad=%d' % (d, rule, par, step, interp, pad)
+        if case[0] == 'fb-scaled':
+            o['sift_thresh'] = thresh
+        tag = '%s stop=%s%r step=%.3g interp=%s pad=%d%s' % (d, rule, par, step, interp, pad, '' if case[0] != 'fb-scaled' else ' sift_thresh=%g' % thresh)
         _state['paths'] = []
+        _state['layer'] = 0
+        _state['abort_at'] = None
         try:
             xin = x.copy() if case[0] != 'fa4-int' else x.astype(np.int64 if case[2] % 2 == 0 else np.int16)
             imf = sift(xin, **o)
@@ -198,12 +224,43 @@ def check_case(case):
         maxcols = max(maxcols, np.asarray(imf).shape[1] if np.asarray(imf).ndim == 2 else 0)
         if 'vanish' in paths:
             classes.add('vanish')
-        bad = judge(x, imf)
+        bad = judge(x, imf, thresh, unit)
         if bad:
             suffix = ':after-vanish' if 'vanish' in paths else ''
             viols.append((bad[0] + suffix, '%s: %s; extraction paths %s' % (tag, bad[1], paths)))
-        elif np.abs(np.asarray(imf)[:, -1]).sum() < 1e-8:
+        elif np.abs(np.asarray(imf)[:, -1]).sum() < thresh:
             classes.add('cut-by-threshold')
+        if case[0] == 'fb-abort' and not bad:
+            nlayers = len(paths)
+            for when in ('pre', 'post'):
+                for k_ in range(1, nlayers + 1):
+                    _state['layer'] = 0
+                    _state['abort_at'] = (when, k_)
+                    try:
+                        sift(x.copy(), **o)
+                        aborted = False
+                    except (EMDSiftCovergeError, KeyboardInterrupt):
+                        aborted = True
+                    except Exception as e:
+                        viols.append(('abort:other-exception', '%s: abort %s extraction %d surfaced as %r' % (tag, when, k_, e)))
+                        aborted = True
+                    finally:
+                        _state['abort_at'] = None
+                        _state['layer'] = 0
+                    if not aborted:
+                        viols.append(('abort:swallowed', '%s: an error raised %s extraction %d did not leave the sift' % (tag, when, k_)))
+                    _state['paths'] = []
+                    try:
+                        again = np.asarray(sift(x.copy(), **o))
+                    except Exception as e:
+                        viols.append(('abort:next-call-raises', '%s: the sift after an aborted one (%s extraction %d) raised %r' % (tag, when, k_, e)))
+                        continue
+                    trans += 2
+                    bad2 = judge(x, again, thresh, unit)
+                    if bad2:
+                        viols.append((bad2[0] + ':after-aborted-sift', '%s: after a sift aborted %s extraction %d of %d: %s' % (tag, when, k_, nlayers, bad2[1])))
+                    elif again.shape != np.asarray(imf).shape or not np.array_equal(again, np.asarray(imf)):
+                        viols.append(('abort:next-call-differs', '%s: the sift after an aborted one (%s extraction %d of %d) differs from the undisturbed run' % (tag, when, k_, nlayers)))
     if input_final:
         cls = 'final-only'
     elif 'vanish' in classes:
